@@ -97,7 +97,17 @@ class Steps:
 
 
 def gen_plan(rng, tier, run):
-    r = pelgen.gen_pel(rng, max_sections=8)
+    # a third of the plans aim user-data sections at the shipped parser plugins (real code fed damaged payloads)
+    shipped = rng.random() < 0.35
+    r = pelgen.gen_pel(rng, max_sections=8, creator=rng.choice(["O", "O", "M"]) if shipped else None,
+                       ud_targets=[("O", 0xE500), ("O", 0xE500), ("M", 0x2C00)] if shipped else None)
+    if shipped:
+        for sec in r["sections"]:
+            if sec["kind"] in ("ud", "ed") and sec["comp"] == 0xE500:
+                sec["subtype"] = rng.choice([1, 1, 2, 3, 4, 5, 9])
+                if sec["subtype"] in (1, 2):
+                    # a plausible count followed by data
+                    sec["payload"] = (bytes([0, 0, 0, rng.randint(0, 3)]) + bytes.fromhex(sec["payload"])).hex()
     data = pelgen.build(r)
     while len(data) > 2300:
         r["sections"].pop()
